@@ -105,7 +105,7 @@ func (t *WeightedMerkleTrie) insert(node Node, prefix, key []byte, value Node) (
 		}
 		if v, ok := node.(*valueNode); ok {
 			newVal := value.(*valueNode).value
-			if bytes.Equal(v.value, newVal) {
+			if bytes.Equal(v.value, newVal) && v.weight == value.Weight() {
 				return 0, v, nil
 			}
 			change := int64(value.Weight()) - int64(v.Weight())
